@@ -419,6 +419,109 @@ func c01Scenario(c c01cfg) *Scenario {
 	return sc
 }
 
+// c01OverlappingCommands: two commands that bring new targets to the SAME service overlap: the first one's target
+// turns healthy after one interval, the second one (started 200ms later) names a healthy target and one that never
+// passes a probe. For each command separately: no client request reaches any of its targets before all of them have
+// answered a 2xx probe, and none at all if the command fails.
+func c01OverlappingCommands(first, second string) *Scenario {
+	sc := &Scenario{Name: fmt.Sprintf("C01 %s overlapping %s of the same service", first, second), Horizon: 120 * time.Second}
+	const host = "a.example.com"
+	sets := [][]string{{"g:80"}, {"ok2:80", "bad:80"}}
+	var cmds [2]*CmdObs
+	sc.Run = func(w *World) {
+		cmds = [2]*CmdObs{}
+		w.AddTarget("oa:80")
+		w.AddTarget("ra:80")
+		w.AddTarget("g:80", p500(), pOK())
+		w.AddTarget("ok2:80")
+		w.AddTarget("bad:80", p500())
+		w.Deploy(deployArgs("s1", []string{"oa:80"}, []string{host}, nil))
+		w.RolloutDeploy("s1", []string{"ra:80"})
+		w.RolloutSet("s1", 0, []string{"v"})
+		time.Sleep(vI / 2)
+		run := func(kind string, targets []string) *CmdObs {
+			if kind == "deploy" {
+				return w.Deploy(deployArgs("s1", targets, []string{host}, nil))
+			}
+			return w.RolloutDeploy("s1", targets)
+		}
+		var wg vsync.WaitGroup
+		t0 := w.Now()
+		w.S.SetWindow(true)
+		wg.Add(3)
+		vsched.GoTagged("cmd", func() { defer wg.Done(); cmds[0] = run(first, sets[0]) })
+		vsched.GoTagged("cmd", func() {
+			defer wg.Done()
+			time.Sleep(200 * time.Millisecond)
+			cmds[1] = run(second, sets[1])
+		})
+		vsched.GoTagged("client", func() {
+			defer wg.Done()
+			for j, o := range []time.Duration{500 * time.Millisecond, 1500 * time.Millisecond, 3 * time.Second, 6 * time.Second} {
+				time.Sleep(t0 + o - w.Now())
+				w.Do(ReqSpec{ID: fmt.Sprintf("c-cookie%d", j), Host: host, Cookie: "kamal-rollout=v"})
+				w.Do(ReqSpec{ID: fmt.Sprintf("c-plain%d", j), Host: host})
+			}
+		})
+		wg.Wait()
+		w.S.SetWindow(false)
+		time.Sleep(2 * vI)
+		w.Do(ReqSpec{ID: "late-cookie", Host: host, Cookie: "kamal-rollout=v"})
+		w.Do(ReqSpec{ID: "late-plain", Host: host})
+	}
+	sc.Check = func(w *World) []Violation {
+		var vs []Violation
+		if cmds[0] == nil || cmds[1] == nil || !cmds[0].Done || !cmds[1].Done {
+			return vs
+		}
+		evs := w.Net.Events()
+		firstOK := map[string]int{}
+		for _, e := range evs {
+			if e.Kind == "probe-answer" && e.Status >= 200 && e.Status <= 299 {
+				if _, ok := firstOK[e.Target]; !ok {
+					firstOK[e.Target] = e.Seq
+				}
+			}
+		}
+		for i, set := range sets {
+			member := map[string]bool{}
+			for _, t := range set {
+				member[t] = true
+			}
+			for _, e := range evs {
+				if e.Kind != "req" || !member[e.Target] {
+					continue
+				}
+				if cmds[i].Err != nil {
+					vs = append(vs, Violation{"C01", "client-request-reached-rejected-target overlapping-commands", fmt.Sprintf("%s %v failed (%v) but request %s reached %s at %v", cmds[i].Name, set, cmds[i].Err, e.ReqID, e.Target, e.At)})
+					break
+				}
+				bad := ""
+				for _, t := range set {
+					if s, ok := firstOK[t]; !ok || s > e.Seq {
+						bad = t
+					}
+				}
+				if bad != "" {
+					vs = append(vs, Violation{"C01", "client-request-before-all-new-targets-healthy overlapping-commands", fmt.Sprintf("request %s reached %s at %v but %s (named by the same command) had not answered a 2xx probe", e.ReqID, e.Target, e.At, bad)})
+					break
+				}
+			}
+		}
+		if !w.HadStall() && cmds[1].Err == nil {
+			vs = append(vs, Violation{"C01", "no-failure-despite-unhealthy-target overlapping-commands", fmt.Sprintf("%s %v returned nil although bad:80 never answered a 2xx probe", cmds[1].Name, sets[1])})
+		}
+		for _, r := range w.Reqs {
+			if r.Done && r.Status != 200 && r.Status != 503 {
+				vs = append(vs, Violation{"C01", "request-failed overlapping-commands", r.Summary()})
+				break
+			}
+		}
+		return vs
+	}
+	return sc
+}
+
 func checkC01(t *testing.T, job *Job, res *Result) {
 	tier := job.Tier
 	if job.Replay != nil {
@@ -428,10 +531,13 @@ func checkC01(t *testing.T, job *Job, res *Result) {
 	for _, c := range c01Configs(tier) {
 		scs = append(scs, c01Scenario(c))
 	}
+	for _, x := range [][2]string{{"rollout", "rollout"}, {"deploy", "deploy"}, {"rollout", "deploy"}, {"deploy", "rollout"}} {
+		scs = append(scs, c01OverlappingCommands(x[0], x[1]))
+	}
 	b := Bounds{D: 1, S: 1, Total: 1}
 	if tier == "thorough" {
 		b = Bounds{D: 2, S: 1, Total: 2}
 	}
-	res.Rule = "configurations = command {deploy, rollout deploy} x pre-state {absent, active, active+rollout+split} x 1..3 new targets x per-target probe script {ok, k failures (refused/500/slow) then ok, never ok, first 2xx just before/after the deploy timeout, flapping} x client threads issuing plain and cookie requests spread over the command; per configuration every schedule within the deviation bounds; oracle O1-O5 of DESIGN.md C01 on target-side logs"
+	res.Rule = "two commands naming new targets for the same service overlapping (per command: no request before all of ITS targets passed a probe, none if it failed); configurations = command {deploy, rollout deploy} x pre-state {absent, active, active+rollout+split} x 1..3 new targets x per-target probe script {ok, k failures (refused/500/slow) then ok, never ok, first 2xx just before/after the deploy timeout, flapping} x client threads issuing plain and cookie requests spread over the command; per configuration every schedule within the deviation bounds; oracle O1-O5 of DESIGN.md C01 on target-side logs"
 	runS(t, job, res, "C01", withReversed(scs), b, 4000)
 }
